@@ -73,7 +73,7 @@ static Loop *loops[kNLoop] = {nullptr, nullptr, nullptr};
 static std::string engine = "epoll";
 
 struct CbRec { size_t ev; int sig; bool en; };
-struct Act { char kind; size_t j; };
+struct Act { char kind; size_t j; std::set<int> sigs; bool oneshot; };
 static std::vector<SignalEvent *> objs;
 static std::vector<int> obj_loop;
 static std::vector<std::vector<Act>> scripts;
@@ -157,17 +157,38 @@ static std::string show_cbs() {
     return s;
 }
 
-// "e1" "d0" "x2"
+// "e1" "d0" "x2" "i0:1.2:o"
 static bool parse_script(const std::string &w, std::vector<Act> &out, size_t self) {
     out.clear();
     if (w == "-") return true;
     if (w.empty() || w.back() == ',') return false;
     std::stringstream ss(w); std::string item;
     while (std::getline(ss, item, ',')) {
-        if (item.size() < 2 || (item[0] != 'e' && item[0] != 'd' && item[0] != 'x')) return false;
-        uint64_t j; if (!vh::to_u64(item.substr(1), j) || j >= 64) return false;
-        if (item[0] == 'x' && j == self) return false;   // deleting oneself inside one's own callback is outside the property
-        out.push_back(Act{item[0], (size_t)j});
+        if (item.size() < 2) return false;
+        Act a; a.kind = item[0]; a.oneshot = false;
+        uint64_t j;
+        if (a.kind == 'i') {
+            size_t p1 = item.find(':'), p2 = item.rfind(':');
+            if (p1 == std::string::npos || p2 == p1) return false;
+            if (!vh::to_u64(item.substr(1, p1 - 1), j) || j >= 64) return false;
+            std::string sg = item.substr(p1 + 1, p2 - p1 - 1), m = item.substr(p2 + 1);
+            if (m != "o" && m != "p") return false;
+            a.oneshot = (m == "o");
+            if (sg != "-") {
+                if (sg.empty() || sg.back() == '.') return false;
+                std::stringstream s2(sg); std::string t; long prev = -1;
+                while (std::getline(s2, t, '.')) {
+                    uint64_t g; if (!vh::to_u64(t, g) || g >= (uint64_t)kNSig || (long)g <= prev) return false;
+                    prev = (long)g; a.sigs.insert(kSig[g]);
+                }
+            }
+        } else {
+            if (a.kind != 'e' && a.kind != 'd' && a.kind != 'x') return false;
+            if (!vh::to_u64(item.substr(1), j) || j >= 64) return false;
+            if (a.kind == 'x' && j == self) return false;   // deleting oneself inside one's own callback is outside the property
+        }
+        a.j = (size_t)j;
+        out.push_back(a);
     }
     return true;
 }
@@ -180,6 +201,7 @@ static void apply(const Act &a, int li) {
         case 'e': t->enable(); break;
         case 'd': t->disable(); break;
         case 'x': delete t; objs[a.j] = nullptr; break;
+        case 'i': t->initialize(a.sigs, a.oneshot ? Event::Mode::kOneshot : Event::Mode::kPersist); break;
     }
 }
 
